@@ -77,6 +77,16 @@ def gen_cases(seed, tier):
                  for n_ in rng2.choice(np.arange(5, 61), size=14, replace=False)]
         cases.append({"spec": spec, "rows": gen_geo.param_rows(rng2, kk_), "k": kk_, "calls": calls, "seed": int(rng2.integers(0, 2 ** 31)),
                       "info": {"kind": "bool", "dim": 2, "dep": False, "relations": ["%s:thin_bar" % op], "desc": geo.ref(spec).desc() + "~bar"}})
+    # a contained cut whose removed part touches the outer boundary (notch): judged against the polygon the set is
+    rng3 = np.random.default_rng([seed, 103])
+    for i in range(6 if tier == "quick" else 150):
+        spec, poly = gen_geo.notch_cut(rng3)
+        kk_ = int(rng3.choice([0, 0, 2]))
+        calls = [{"lvl": lv, "target": "boundary", "fn": fn, "by": "n", "n": int(rng3.choice([20, 61, 200]))}
+                 for lv in (("sampler",) if kk_ > 1 else ("domain", "sampler")) for fn in ("random", "grid")]
+        calls += [{"lvl": "sampler", "target": "interior", "fn": "random", "by": "n", "n": 50}]
+        cases.append({"spec": spec, "equiv": poly, "rows": gen_geo.param_rows(rng3, kk_), "k": kk_, "calls": calls, "seed": int(rng3.integers(0, 2 ** 31)),
+                      "info": {"kind": "bool", "dim": 2, "dep": False, "relations": ["cut:notch!"], "desc": "(P-P)~notch"}})
     return cases
 
 
@@ -191,6 +201,8 @@ def run_case(case):
     classes = []
     D, node, P, env = sampling.build_case(case)
     bnode = geo.ref({"op": "boundary", "d": case["spec"]})
+    if case.get("equiv"):
+        node, bnode = geo.ref(case["equiv"]), geo.ref({"op": "boundary", "d": case["equiv"]})
     k = case["k"]
     shape = "".join(c for c in info["desc"] if not c.isdigit())
     for call in case["calls"]:
